@@ -1,12 +1,13 @@
 """C06 -- reported standard errors and confidence intervals are coherent."""
 import math
 import warnings
+from fractions import Fraction
 
 import numpy as np
 import pandas as pd
 from scipy.stats import norm
 
-from common import fx, unfx, enc_list, close
+from common import fx, unfx, enc_list, dec_list, close
 from props import calc2
 
 REQUIRED = ['ci_linear', 'ci_log', 'ci_contains', 'ci_nested', 'ci_exp_contains', 'ci_log_contains', 'ci_exp_nested',
@@ -34,11 +35,20 @@ REQUIRED = ['ci_linear', 'ci_log', 'ci_contains', 'ci_nested', 'ci_exp_contains'
             'icr_delta_def', 'icr_indep_alpha', 'icr_coherent',
             # Props/C06_Splits.lean: aipw_calculator with splits given (cross-fit AIPTW), regenerated
             'aipw_calc_splits_generated', 'aipw_calc_splits_var_nonneg', 'aipw_calc_splits_one',
-            'aipw_calc_splits_ratio_estimate']
+            'aipw_calc_splits_ratio_estimate',
+            # round 4: NNT limits on the reciprocal scale for every accepted table (also RD = 0); Props/C06_Frames.lean:
+            # the se reported for a level by the six frame classes is the Wald se of that level's own table
+            'nnt_ci_recip', 'nnt_ci_null', 'rr_se_wald', 'rd_se_wald', 'nnt_se_wald', 'or_se_wald', 'irr_se_wald',
+            'ird_se_wald', 'counts_frame_se', 'rates_frame_se', 'ird_frame_se_wald', 'irr_frame_se_wald',
+            'rd_frame_se_wald']
 RULE = ('alpha runs over a fixed grid (25 equally spaced values in (0,1), the extremes 1e-6/1e-3/0.999, and 0.05 with its '
         'neighbours 0.049999/0.050001); for every (estimator, configuration, data set) the whole grid is evaluated and the '
         'limits, containment, nestedness across the grid and alpha-independence of estimate/se are judged; streams: count '
-        'calculators on random tables, the six frame classes, AIPTW, TMLE, StochasticTMLE, the four cross-fit classes '
+        'calculators on random tables and on null tables (both groups with exactly the same risk / odds / rate: RD = 0, '
+        'RR = OR = 1, NNT infinite), the six frame classes on frames built from a table of cell counts (2-4 levels with '
+        'whole-number or fractional / negative category values, any level the reference handed over as int / float / numpy '
+        'scalar, every other frame with a level matching the reference exactly, person-time with rows at 0 and missing, '
+        'incomplete rows), each reported se also judged against the Wald formula of that row\'s own table, AIPTW, TMLE, StochasticTMLE, the four cross-fit classes '
         '(reduced grid: each fit is seconds), IPTW (fixed 95%), and calculate_joint_estimate / tmle_calculator / '
         'aipw_calculator directly on random vectors; the second batch of zepid/calc/utils.py (sensitivity, specificity, '
         'ppv/npv_converter, screening_cost_analyzer, rubins_rules, semibayes, counternull_pvalue, s_value, logit, '
@@ -62,6 +72,48 @@ def z_of(alpha):
 
 def isnan(x):
     return isinstance(x, float) and math.isnan(x)
+
+
+def recip(x):
+    """reciprocal on the extended real line (1/inf = 0, 1/0 = inf)"""
+    return 0.0 if math.isinf(x) else (math.inf if x == 0 else 1 / x)
+
+
+# --------------------------------------------------------------------------- the documented Wald variances (gate D)
+def wald_var(fn, args, kw=None):
+    """exact squared Wald standard error documented for a count calculator (docstrings of zepid/calc/utils.py)"""
+    x = [Fraction(v) for v in args]
+    if fn == 'risk_ratio':
+        a, b, c, d = x
+        return 1 / a - 1 / (a + b) + 1 / c - 1 / (c + d)
+    if fn in ('risk_difference', 'number_needed_to_treat'):
+        a, b, c, d = x
+        r1, r0 = a / (a + b), c / (c + d)
+        return r1 * (1 - r1) / (a + b) + r0 * (1 - r0) / (c + d)
+    if fn == 'odds_ratio':
+        a, b, c, d = x
+        return 1 / a + 1 / b + 1 / c + 1 / d
+    if fn == 'incidence_rate_ratio':            # (a, c, t1, t2)
+        return 1 / x[0] + 1 / x[1]
+    if fn == 'incidence_rate_difference':
+        return x[0] / x[2] ** 2 + x[1] / x[3] ** 2
+    if fn == 'incidence_rate_ci':               # (events, time)
+        return x[0] / x[1] ** 2
+    if fn in ('risk_ci', 'sensitivity', 'specificity'):     # (events, total); both variances are symmetric in
+        e, n = x                                            # events <-> non-events, so specificity shares them
+        if (kw or {}).get('confint', 'wald') == 'hypergeometric':
+            return e * (n - e) / (n ** 2 * (n - 1))
+        return (e / n) * (1 - e / n) / n
+    raise KeyError(fn)
+
+
+def judge_wald(chk, who, fn, args, kw, se, case):
+    """the reported standard error is the documented variance estimator of the table it is reported for"""
+    want = float(wald_var(fn, args, kw))
+    # 1e-11 on the squares: one square root and a handful of float operations against exact rational arithmetic
+    chk.d(close(float(se) ** 2, want, rtol=1e-11, atol=1e-300),
+          '%s: standard error = documented Wald formula of the table it is reported for' % who,
+          dict(case, table=[float(v) for v in args], wald_fn=fn, got_se=float(se), documented_se=math.sqrt(want)))
 
 
 # --------------------------------------------------------------------------- the property predicate (gate D)
@@ -94,11 +146,12 @@ def judge(chk, who, scale, recs, case, tmle=False, fixed_alpha=False):
         elif scale == 'log':
             wl, wu, lo, pt, hi = math.exp(math.log(est) - z * se), math.exp(math.log(est) + z * se), lcl, est, ucl
         else:  # recip
-            if not (math.isfinite(est) and math.isfinite(lcl) and math.isfinite(ucl)) or est == 0:
-                chk.count('nnt_infinite_not_judged')
-                continue
-            rd = 1 / est
-            wl, wu, lo, pt, hi = rd - z * se, rd + z * se, 1 / lcl, rd, 1 / ucl
+            # documented reciprocal scale on the extended line: NNT = inf exactly when RD = 0, a limit is inf exactly
+            # when that limit of the risk difference is 0 -- so 1/inf stands for 0 (and an NNT of 0 for no finite RD)
+            if math.isinf(est) or math.isinf(lcl) or math.isinf(ucl):
+                chk.count('nnt_infinite_judged')
+            rd = recip(est)
+            wl, wu, lo, pt, hi = rd - z * se, rd + z * se, recip(lcl), rd, recip(ucl)
         # 1e-10 relative (+1e-13 absolute): the same float formula is evaluated, only rounding differs
         ok = close(lo, wl, rtol=1e-10, atol=1e-13) and close(hi, wu, rtol=1e-10, atol=1e-13)
         chk.d(ok, '%s: limits = estimate -/+ norm.ppf(1-alpha/2)*se on the %s scale' % (who, scale),
@@ -180,6 +233,9 @@ def cell_calc(chk, drv, fn, args, kw):
                                                                       'model': rep})
     chk.count('calc:' + fn)
     judge(chk, 'calc.' + fn + (':' + kw['confint'] if kw else ''), SCALE[fn], recs, case)
+    for r in (recs[0], recs[-1]):
+        judge_wald(chk, 'calc.' + fn + (':' + kw['confint'] if kw else ''), fn, args, kw, r['se'],
+                   dict(case, alpha=r['alpha']))
 
 
 def stream_calculators(chk, drv, rng, tier):
@@ -195,6 +251,17 @@ def stream_calculators(chk, drv, rng, tier):
                  ('specificity', (c, c + d), {'confint': 'hypergeometric'})]
         for fn, args, kw in calls:
             cell_calc(chk, drv, fn, args, kw)
+    # null tables (round 4): the two groups have exactly the same risk / odds / rate, so the difference measures are
+    # exactly 0, the ratios exactly 1 (log = 0) and NNT is infinite, while se and limits stay ordinary numbers
+    for _ in range(3 if tier == 'quick' else 30):
+        p_, q_ = (int(x) for x in rng.integers(1, 40, size=2))
+        k_, m_ = (int(x) for x in rng.choice(np.arange(1, 12), size=2, replace=False))
+        tt = float(np.round(rng.uniform(1, 60), 2))
+        chk.count('calc:null_table')
+        for fn in CALC4:
+            cell_calc(chk, drv, fn, (k_ * p_, k_ * q_, m_ * p_, m_ * q_), {})
+        for fn in ('incidence_rate_ratio', 'incidence_rate_difference'):
+            cell_calc(chk, drv, fn, (k_ * p_, m_ * p_, k_ * tt, m_ * tt), {})
 
 
 def cell_dtype(chk, fn, args, kw, dt, zero_d, alpha):
@@ -265,21 +332,45 @@ FRAME = {'RiskRatio': [('RiskRatio', 'SD(RR)', 'RR_LCL', 'RR_UCL', 'log'), ('Ris
                                      ('IncRate', 'SD(IncRate)', 'IncRate_LCL', 'IncRate_UCL', 'lin')]}
 
 
-def cell_frame(chk, drv, frame, cls):
+# which count function (and which of its arguments) stands behind each reported (estimate, SD, limits) quadruple
+WALD_OF = {'RiskRatio': 'risk_ratio', 'RiskDifference': 'risk_difference', 'NNT': 'number_needed_to_treat',
+           'OddsRatio': 'odds_ratio', 'IncRateRatio': 'incidence_rate_ratio', 'IncRateDiff': 'incidence_rate_difference',
+           'Risk': 'risk_ci', 'IncRate': 'incidence_rate_ci'}
+REF_TYPES = {'int': int, 'float': float, 'np.int64': np.int64, 'np.float64': np.float64}
+SHORT = {'RiskRatio': 'RR', 'RiskDifference': 'RD', 'NNT': 'NNT', 'OddsRatio': 'OR', 'IncidenceRateRatio': 'IRR',
+         'IncidenceRateDifference': 'IRD'}
+
+
+def cell_frame(chk, drv, frame, cls, ref=0, ref_type=None):
     import zepid
     df = pd.DataFrame({k: [np.nan if x is None else x for x in v] for k, v in frame.items()})
     n = len(df)
     measures = FRAME[cls]
+    refv = REF_TYPES[ref_type](ref) if ref_type else ref
+    rate = cls.startswith('Incidence')
     store = {}
+    # the cross-tabulation of the rows with exposure and outcome observed, made here (not by the class)
+    cc = df.dropna(subset=['exp', 'dis'])
+
+    def table(pc, lvl):
+        a, b = int(((cc['exp'] == lvl) & (cc['dis'] == 1)).sum()), int(((cc['exp'] == lvl) & (cc['dis'] == 0)).sum())
+        c, d = int(((cc['exp'] == ref) & (cc['dis'] == 1)).sum()), int(((cc['exp'] == ref) & (cc['dis'] == 0)).sum())
+        t1, t2 = float(cc.loc[cc['exp'] == lvl, 't'].sum()), float(cc.loc[cc['exp'] == ref, 't'].sum())
+        return {'Risk': (a, a + b), 'IncRate': (a, t1)}.get(pc, (a, c, t1, t2) if rate else (a, b, c, d))
+    case0 = {'cls': cls, 'n': n, 'ref': ref, 'ref_type': ref_type, 'data_hash': hash(df.to_csv()),
+             'replay': rp('frame', frame=frame, cls=cls, ref=ref, ref_type=ref_type)}
     for alpha in GRID:
-        obj = getattr(zepid, cls)(reference=0, alpha=alpha)
+        obj = getattr(zepid, cls)(reference=refv, alpha=alpha)
         try:
-            if cls.startswith('Incidence'):
+            if rate:
                 obj.fit(df, exposure='exp', outcome='dis', time='t')
             else:
                 obj.fit(df, exposure='exp', outcome='dis')
         except ValueError:
             chk.discard('generated frame has an empty cell (calculator rejects it: C07)')
+            break
+        except ZeroDivisionError:
+            chk.discard('a group with total person-time zero (outside the property: positive person-time)')
             break
         res = obj.results
         for (pc, sc, lc, uc, scale) in measures:
@@ -292,25 +383,104 @@ def cell_frame(chk, drv, frame, cls):
                 store.setdefault((pc, lab, scale), []).append(
                     {'alpha': alpha, 'est': float(vals[0]), 'se': float(vals[1]), 'lcl': float(vals[2]),
                      'ucl': float(vals[3])})
+        if drv is not None and alpha in (GRID[0], 0.05, GRID[-1]):
+            k_frame(chk, drv, cls, df, ref, alpha, res, measures[0], dict(case0, alpha=alpha))
     chk.count('frame:' + cls)
     for (pc, lab, scale), recs in sorted(store.items()):
-        judge(chk, 'frame.%s:%s' % (cls, pc), scale, recs,
-              {'cls': cls, 'row': lab, 'n': n, 'data_hash': hash(df.to_csv()),
-               'replay': rp('frame', frame=frame, cls=cls)})
+        case = dict(case0, row=lab)
+        judge(chk, 'frame.%s:%s' % (cls, pc), scale, recs, case)
+        # the standard error of a row is the Wald standard error of THAT level's table against the reference's
+        lvl = ref if lab.startswith('Ref:') else float(lab)
+        for r in (recs[0], recs[-1]):
+            judge_wald(chk, 'frame.%s:%s' % (cls, pc), WALD_OF[pc], table(pc, lvl), None, r['se'],
+                       dict(case, alpha=r['alpha'], level=lvl))
+
+
+def k_frame(chk, drv, cls, df, ref, alpha, res, measure, case):
+    """gate K: the model of the `fit` loop (Model/Measures.lean, the subject of Props/C06_Frames.lean) with the generated
+    calculator reports the same estimate, se and limits for every level; levels are handed over by rank"""
+    pc, sc, lc, uc, _ = measure
+    levels = sorted(set(float(v) for v in df['exp'].dropna().unique()) | {float(ref)})
+    code = {v: i for i, v in enumerate(levels)}
+    label = {i: str(np.float64(v)) for v, i in code.items()}
+
+    def enc(xs, f):
+        return ','.join('_' if (x is None or (isinstance(x, float) and math.isnan(x))) else f(x) for x in xs) or '[]'
+    kw = dict(cls=SHORT[cls], ref=code[float(ref)], alpha=fx(alpha), px=fx(1 - alpha / 2), pz=fx(z_of(alpha)),
+              e=enc(df['exp'].tolist(), lambda v: str(code[float(v)])), d=enc(df['dis'].tolist(), lambda v: str(int(v))))
+    if cls.startswith('Incidence'):
+        kw['t'] = enc(df['t'].tolist(), fx)
+    rep, line = drv.ask('frame', **kw)
+    ok = rep['status'] == 'ok'
+    if ok:
+        lv = dec_list(rep['levels'], int)
+        ok = sorted(label[l] for l in lv) == sorted(i for i in res.index if not i.startswith('Ref:'))
+        for key, c in (('point', pc), ('lower', lc), ('upper', uc), ('se', sc)):
+            for l, v in zip(lv, dec_list(rep[key], unfx)):
+                ok = ok and label[l] in res.index and close(res.loc[label[l], c], v, rtol=1e-11, atol=1e-14)
+    chk.k(ok, 'frame.%s: model of the fit loop vs implementation (estimate, se, limits of every level)' % cls,
+          {'case': case, 'model': rep})
+
+
+INT_LEVELS = [0, 1, 2, 3, 5, 8, 9, 10, 16, 17, 20, 33, 40]
+FRAC_LEVELS = [-2, -1, -0.5, 0, 0.25, 0.5, 1, 1.5, 2, 2.5, 7.75, 10.5]
+
+
+def gen_count_frame(rng, null_level):
+    """a frame built from a table of cell counts: 2-4 exposure levels (whole-number or fractional / negative category
+    values), any level the reference; with `null_level` one non-reference level has exactly the risk (events : non-events
+    = p : q) and exactly the rate (person-time proportional to the group size) of the reference; person-time in
+    quarters with some rows at exactly 0; then rows missing the exposure, the outcome or both (they carry person-time)
+    and, outside the two matched groups, rows missing the time.  -> (frame as JSON lists, reference, reference type)"""
+    nlev = int(rng.integers(2, 5))
+    pool = INT_LEVELS if rng.uniform() < 0.6 else FRAC_LEVELS
+    levels = sorted(float(v) for v in rng.choice(pool, size=nlev, replace=False))
+    ref = levels[int(rng.integers(0, nlev))]
+    others = [l for l in levels if l != ref]
+    p_, q_ = (int(x) for x in rng.integers(2, 9, size=2))
+    counts = {l: (int(rng.integers(4, 30)), int(rng.integers(4, 30))) for l in levels}
+    matched = []
+    if null_level:
+        k_, m_ = (int(x) for x in rng.choice(np.arange(1, 6), size=2, replace=False))
+        twin = others[int(rng.integers(0, len(others)))]
+        counts[ref], counts[twin] = (k_ * p_, k_ * q_), (m_ * p_, m_ * q_)
+        matched = [ref, twin]
+    tau = float(rng.choice([1.5, 2.25, 4.0, 7.5]))
+    rows = []
+    for l in levels:
+        ev, nev = counts[l]
+        t = np.round(rng.uniform(0.5, 10, size=ev + nev) * 4) / 4
+        if l in matched:
+            # every row tau, then quarter-sized amounts moved between pairs of rows: the group total stays n * tau exactly
+            t = np.full(ev + nev, tau)
+            for _ in range(ev + nev):
+                i, j = (int(x) for x in rng.integers(0, ev + nev, size=2))
+                dlt = min(float(rng.integers(0, 8)) / 4, t[i])
+                t[i] -= dlt
+                t[j] += dlt
+        else:
+            t[rng.uniform(size=ev + nev) < 0.1] = 0.0
+            t[rng.uniform(size=ev + nev) < 0.08] = np.nan
+        rows += [(l, 1.0 if i < ev else 0.0, float(x)) for i, x in enumerate(t)]
+    for _ in range(int(rng.integers(0, 12))):          # incomplete rows: no part of any cross-tabulation
+        kind = int(rng.integers(0, 3))
+        l = levels[int(rng.integers(0, nlev))]
+        rows.append((np.nan if kind != 1 else l, np.nan if kind != 0 else float(rng.integers(0, 2)),
+                     float(np.round(rng.uniform(0.5, 10), 2))))
+    order = rng.permutation(len(rows))
+    e, d, t = (np.array([rows[i][k] for i in order], dtype=float) for k in range(3))
+    frame = {k: [None if math.isnan(x) else float(x) for x in v] for k, v in (('exp', e), ('dis', d), ('t', t))}
+    names = ['float', 'np.float64'] + (['int', 'np.int64'] if float(ref).is_integer() else [])
+    return frame, float(ref), str(rng.choice(names))
 
 
 def stream_frames(chk, drv, rng, tier):
     import zepid
-    for _ in range(2 if tier == 'quick' else 12):
-        n = int(rng.integers(60, 200))
-        e = rng.integers(0, 3, n).astype(float)
-        dd = (rng.uniform(size=n) < 0.25 + 0.15 * e).astype(float)
-        t = np.round(rng.uniform(0.5, 10, n), 2)
-        e[rng.uniform(size=n) < 0.05] = np.nan
-        dd[rng.uniform(size=n) < 0.05] = np.nan
-        df = pd.DataFrame({'exp': e, 'dis': dd, 't': t})
+    for i in range(4 if tier == 'quick' else 24):
+        frame, ref, ref_type = gen_count_frame(rng, null_level=(i % 2 == 1))
+        chk.count('frame:null_level' if i % 2 else 'frame:random')
         for cls, measures in FRAME.items():
-            cell_frame(chk, drv, {k: [None if math.isnan(x) else float(x) for x in df[k]] for k in df.columns}, cls)
+            cell_frame(chk, drv, frame, cls, ref=ref, ref_type=ref_type)
 
 
 def gen_causal(rng, n, ytype, missing):
